@@ -25,6 +25,7 @@ structure DSt where
   isX : Nat → Bool := fun _ => false
   /-- ShiftMatching batches: howMany of one that waits for capMu -/
   swant : Nat → Option (Nat × List Nat) := fun _ => none
+  shiftReeval : Bool := true
 
 def upd {α : Type} (f : Nat → α) (b : Nat) (v : α) : Nat → α := fun x => if x = b then v else f x
 
@@ -90,7 +91,8 @@ def idleNow (d : DSt) : List Nat :=
     arrives — BEFORE capMu is taken — and the selection under the locks only checks membership in that
     set: a candidate that has stopped matching the filter meanwhile is shifted all the same. -/
 def doShift (d : DSt) (n : Nat) (cands : List Nat) : DSt × String :=
-  let idle := cands.filter fun k => d.s.present.getD k false
+  -- (with the whole filter re-evaluated at selection a candidate that is no longer idle is passed over)
+  let idle := cands.filter fun k => d.s.present.getD k false && (!d.shiftReeval || !(d.s.recs.getD k false))
   let budget := d.s.max - matching d.s
   if n == 0 then (d, "shifted=0 reached=false") else
   if budget == 0 then (d, "shifted=0 reached=true") else
@@ -184,7 +186,7 @@ def parsePatch (s : String) : Option (Nat × Bool) :=
 
 def stepLine (d : DSt) (line : String) : DSt × String :=
   match words line with
-  | "case" :: _ => ({ cfg := d.cfg }, line)
+  | "case" :: _ => ({ cfg := d.cfg, shiftReeval := d.shiftReeval }, line)
   | "init" :: m :: recs =>
     match m.toNat? with
     | none => (d, "bad-op")
@@ -445,7 +447,8 @@ def run (args : List String) : IO UInt32 := do
                               expiredHoldsCapMu := arg kv "expiredHoldsCapMu" != "no", expiredCountsAll := arg kv "expiredCountsAll" == "yes" } }
     return 0
   lineLoop stepLine { cfg := { countAfterLock := arg kv "countAfterLock" == "yes", createPreFalse := arg kv "createPreFalse" != "no",
-                                expiredHoldsCapMu := arg kv "expiredHoldsCapMu" != "no", expiredCountsAll := arg kv "expiredCountsAll" == "yes" } }
+                                expiredHoldsCapMu := arg kv "expiredHoldsCapMu" != "no", expiredCountsAll := arg kv "expiredCountsAll" == "yes" },
+                      shiftReeval := arg kv "shiftReevaluatesFilter" != "no" }
   return 0
 
 end Driver.C12
